@@ -64,7 +64,7 @@ DELIVERY_KEY = "response-delivered-while-resolver-still-unwinding"
 # (a defect of /repo cf8f094: with_abort_signal cancels the wrapped task without awaiting it, see
 # corpus/CASYNC/repro_unused_abort_signal_cleanup_on_cancel.py and the suggested fix next to it; CASYNC_ABORT_WITH_CLEANUP=1
 # turns the configuration on, violations are reported under UNWIND_KEY / DELIVERY_KEY)
-ABORT_WITH_CLEANUP = os.environ.get("CASYNC_ABORT_WITH_CLEANUP", "") == "1"
+ABORT_WITH_CLEANUP = os.environ.get("CASYNC_ABORT_WITH_CLEANUP", "1") == "1"  # on by default since the repair in /repo
 UNWIND_KEY = "mutation-root-starts-while-awaitable-of-earlier-root-unwinding"
 # True: the overlap is a violation of the serial clause (one stable key); False: it is only counted
 REPORT_ORPHAN_OVERLAP = True
